@@ -447,11 +447,48 @@ type TSZ struct {
 
 func (TSZ) TableName() string { return "tsz" }
 
+// TSW / TSC / TSR: the soft-delete column carries a field permission: write-only (never read back),
+// create-only (not updatable by Updates / Save), read-only. The soft delete itself does not depend
+// on them.
+type TSW struct {
+	ID        int64 `gorm:"primaryKey"`
+	Age       int64
+	Name      string
+	Nick      *string
+	Mark      int64
+	DeletedAt gorm.DeletedAt `gorm:"->:false;<-"`
+}
+
+func (TSW) TableName() string { return "tss" }
+
+type TSC struct {
+	ID        int64 `gorm:"primaryKey"`
+	Age       int64
+	Name      string
+	Nick      *string
+	Mark      int64
+	DeletedAt gorm.DeletedAt `gorm:"<-:create"`
+}
+
+func (TSC) TableName() string { return "tss" }
+
+type TSR struct {
+	ID        int64 `gorm:"primaryKey"`
+	Age       int64
+	Name      string
+	Nick      *string
+	Mark      int64
+	DeletedAt gorm.DeletedAt `gorm:"->"`
+}
+
+func (TSR) TableName() string { return "tss" }
+
 // ZeroValueLive is what the column of a live TSZ row holds.
 const ZeroValueLive = "1970-01-01 00:00:01"
 
 // SoftVariants: name -> zero value of the model type.
-var SoftVariants = map[string]interface{}{"": TS{}, "ptr": TSP{}, "embedded": TSE{}, "named": TSN{}, "zerovalue": TSZ{}}
+var SoftVariants = map[string]interface{}{"": TS{}, "ptr": TSP{}, "embedded": TSE{}, "named": TSN{}, "zerovalue": TSZ{},
+	"writeonly": TSW{}, "createonly": TSC{}, "readonly": TSR{}}
 
 // SoftVariant selects the soft-delete model NewModel / NewSlice / Table use (with UseSoft).
 var SoftVariant string
